@@ -353,6 +353,14 @@ def random_patterns(rng, names, maxn=3, p_neg=0.35):
                             'zzz_nothing'])
         else:
             p = re_escape(name)
+        if rng.random() < 0.08 and len(name) > 3:
+            # regex features that only mean the same when every pattern is
+            # compiled and applied on its own
+            a = rng.randrange(len(name) - 2)
+            frag = name[a:a + rng.randint(2, 5)]
+            p = rng.choice(['(?i)' + re_escape(frag.swapcase()),
+                            '(%s)\\1' % re_escape(frag[:1]),
+                            '(?P<g>%s)' % re_escape(frag)])
         if rng.random() < p_neg:
             p = '!' + p
         pats.append(p)
